@@ -158,6 +158,47 @@ fn wb_run(report: &mut Report, seed: u64, rid: u64, dir: &str) {
                     Ok(sc) if sc.heads.is_empty() => {
                         report.nontrivial.insert(fnv_mix(fnv_mix(shards as u64, pattern), sc.markers.len() as u64));
                         report.count("markers_seen", sc.markers.len() as u64);
+                        // second phase, sweeper still running: keys that are expired from the start (explicit
+                        // timestamp an hour back, 1 s to live). The sweeper removes most of them BEFORE the
+                        // write-behind path has written them; whatever reaches the device must be retired again
+                        let wall = std::time::SystemTime::now().duration_since(std::time::UNIX_EPOCH).map(|d| d.as_nanos() as u64).unwrap_or(0);
+                        let old_ts = feoxdb::verif::now_ns(wall) - 3_600_000_000_000;
+                        let n2 = 24 * shards.max(1);
+                        for i in 0..n2 {
+                            let k = format!("wx-{i:05}").into_bytes();
+                            let v = values::make(Tag { key_id: kid(&k), writer: 1, seq: i as u32 }, 100 + (i % 3) * 3000);
+                            store.insert_with_ttl_and_timestamp(&k, &v, 1, Some(old_ts + i as u64)).expect("insert of an already expired key");
+                            if i % 16 == 15 {
+                                std::thread::sleep(Duration::from_millis(rng.range(0, 40)));
+                            }
+                        }
+                        let t1 = Instant::now();
+                        while store.len() > 0 && t1.elapsed() < Duration::from_secs(20) {
+                            std::thread::sleep(Duration::from_millis(5));
+                        }
+                        if store.len() > 0 {
+                            report.inconclusive.push(format!("run {rid}: sweeper did not remove all born-expired keys within 20 s ({} left)", store.len()));
+                            return;
+                        }
+                        match wait_drained(&store, "retirement of generations swept before they were written") {
+                            Err((sig, msg)) if sig == "wb:slow" => report.inconclusive.push(msg),
+                            Err((sig, msg)) => report.violation(sig, msg, replay.clone()),
+                            Ok(_) => {
+                                let events = mon.events();
+                                let durable = crashimg::build(&base, &events, &Recipe { cut: events.len(), keep: vec![], tear: None });
+                                report.count("born_expired_keys_swept", n2 as u64);
+                                match indep::scan(&durable, None, false) {
+                                    Ok(sc) if sc.heads.is_empty() => {
+                                        let snap = store.verif_snapshot();
+                                        if snap.disk_usage != 0 || snap.free_by_start.len() != 1 {
+                                            report.violation("wb:swept-space-not-returned", format!("all keys swept and pending work drained without flush, yet disk_usage = {} and the free runs are {:?}", snap.disk_usage, snap.free_by_start.iter().take(6).collect::<Vec<_>>()), replay.clone());
+                                        }
+                                    }
+                                    Ok(sc) => report.violation("wb:swept-not-retired", format!("{} generations that were swept before (or while) they were written are valid records on the device after pending work drained without flush", sc.heads.len()), replay.clone()),
+                                    Err(e) => report.violation("wb:decode", format!("independent decode failed: {e}"), replay.clone()),
+                                }
+                            }
+                        }
                     }
                     Ok(sc) => report.violation("wb:swept-not-retired", format!("{} swept generations are still valid records on the device after pending work drained without flush", sc.heads.len()), replay.clone()),
                     Err(e) => report.violation("wb:decode", format!("independent decode failed: {e}"), replay.clone()),
